@@ -45,7 +45,7 @@ class CheckC20(core.Check):
         rnd = random.Random(self.seed * 295075147 + 20)
         descs = [("tt", 0)]
         variants = list(all_variants())
-        n = 220 if self.tier == "quick" else 6000
+        n = 1500 if self.tier == "quick" else 40000
         for _ in range(n):
             p, ps = rnd.choice(variants)
             both = rnd.random() < 0.7
